@@ -2,7 +2,9 @@ package main
 
 import (
 	"fmt"
+	"net/url"
 	"os"
+	"strconv"
 	"strings"
 
 	"verifharness/pkg/h"
@@ -20,6 +22,9 @@ type retCase struct {
 	// configuration changes at a restart: index of the publish -> the size / frequency the hub is reopened with
 	Resize map[int]uint64  `json:"resize,omitempty"`
 	Refreq map[int]float64 `json:"refreq,omitempty"`
+	// SizeText: the window is configured the way an operator writes it, through the transport URL
+	// (bolt://…?size=<text>&cleanup_frequency=…); Size is its decimal value. Empty = NewBoltTransport is called directly.
+	SizeText string `json:"size_text,omitempty"`
 }
 
 func joinU(xs []uint64) string {
@@ -36,6 +41,23 @@ func runRetCase(c *h.Ctx, r *h.Report, cs retCase) {
 	defer os.RemoveAll(dir)
 	size, freq := cs.Size, cs.Freq
 	open := func() *mercure.BoltTransport {
+		if cs.SizeText != "" && size == cs.Size {
+			u, _ := url.Parse("bolt://" + dir + "/h.db?size=" + url.QueryEscape(cs.SizeText) + "&cleanup_frequency=" + strconv.FormatFloat(freq, 'g', -1, 64))
+			tr, err := mercure.DeprecatedNewBoltTransport(u, zapNop())
+			if err != nil {
+				// a decimal numeral was refused: nothing is retained wrongly (the hub does not start); the configuration
+				// families (C19) compare the refusal with the model. Fall back to the direct constructor.
+				r.Count("case:size text refused by the URL factory")
+				t, err2 := mercure.NewBoltTransport(zapNop(), dir+"/h.db", "", size, freq)
+				if err2 != nil {
+					panic(err2)
+				}
+
+				return t
+			}
+
+			return tr.(*mercure.BoltTransport)
+		}
 		t, err := mercure.NewBoltTransport(zapNop(), dir+"/h.db", "", size, freq)
 		if err != nil {
 			panic(err)
@@ -121,7 +143,7 @@ func runRetCase(c *h.Ctx, r *h.Report, cs retCase) {
 			}
 			r.Violate(h.Violation{Key: key,
 				What:   fmt.Sprintf("size=%d frequency=%v after %d publishes the bucket holds sequences [%s]: %s", cs.Size, cs.Freq, n, joinU(seqs), bad),
-				Replay: map[string]any{"family": "retention", "case": retCase{Size: cs.Size, Freq: cs.Freq, Payloads: cs.Payloads[:i+1], Restarts: cs.Restarts}}})
+				Replay: map[string]any{"family": "retention", "case": retCase{Size: cs.Size, Freq: cs.Freq, Payloads: cs.Payloads[:i+1], Restarts: cs.Restarts, SizeText: cs.SizeText}}})
 		}
 		if len(prev)+1-len(seqs) >= 2 {
 			multi = true
@@ -171,6 +193,12 @@ func runRetention(c *h.Ctx, r *h.Report) {
 	// a backlog older than the window at the moment cleanup runs on every publication: reopened with a smaller size
 	runRetCase(c, r, retCase{Size: 10, Freq: 1, Payloads: make([]int, 26), Restarts: []int{20}, Resize: map[int]uint64{20: 5}, Refreq: map[int]float64{20: 1}})
 	runRetCase(c, r, retCase{Size: 0, Freq: 1, Payloads: make([]int, 12), Restarts: []int{8}, Resize: map[int]uint64{8: 3}, Refreq: map[int]float64{8: 1}})
+	// the window written in the transport URL, the way operators write numbers: leading zeros are still decimal
+	for _, txt := range []string{"010", "0100", "08", "00012", "7"} {
+		v, _ := strconv.ParseUint(txt, 10, 64)
+		runRetCase(c, r, retCase{Size: v, SizeText: txt, Freq: 1, Payloads: make([]int, int(v)+15), Restarts: []int{int(v) + 3}})
+		r.Count("case:size-from-url-text")
+	}
 	n := c.Scale(300, 4000)
 	for i := 0; i < n; i++ {
 		rr := c.Rand.Fork()
